@@ -438,6 +438,119 @@ Section Laws.
     request_peer_certs io_is_tcp pc = if io_is_tcp then pc else None.
   Proof. reflexivity. Qed.
 
+  (* ---------------------------------------------------------------- session resumption *)
+  Variable rr : @listener cert ca -> @ticket cert -> option (option cert).
+  Hypothesis H_resume : resume_sound rr.
+
+  (* every ticket the client holds was issued by a listener of the process after a handshake
+     that this client's identity passes there *)
+  Definition tk_ok (ident : option cert) (procs : list (@listener cert ca)) (tk : option (@ticket cert)) : Prop :=
+    match tk with
+    | None => True
+    | Some (sid, pc) => exists l, In l procs /\ l_store l = sid /\ ra (l_acc l) ident = SrvAccept pc
+    end.
+
+  Lemma visit_transparent : forall ident procs l tk,
+    store_injective procs -> In l procs -> tk_ok ident procs tk ->
+    fst (visit ra rr ident l tk) = ra (l_acc l) ident /\
+    tk_ok ident procs (snd (visit ra rr ident l tk)).
+  Proof.
+    intros ident procs l tk Hinj Hl Htk. unfold visit.
+    destruct tk as [[sid pc]|].
+    - destruct (rr l (sid, pc)) as [pc'|] eqn:R.
+      + destruct (H_resume _ _ _ _ R) as [-> ->].
+        destruct Htk as (l0 & Hl0 & Hs & Ha).
+        assert (l0 = l) by (apply Hinj; auto). subst l0. simpl. split; [now rewrite Ha|].
+        exists l. auto.
+      + destruct (ra (l_acc l) ident) as [|pc'] eqn:A; simpl; split; auto. exists l. auto.
+    - destruct (ra (l_acc l) ident) as [|pc'] eqn:A; simpl; split; auto. exists l. auto.
+  Qed.
+
+  (* with one store per listener, what a listener yields never depends on where the client
+     has been before *)
+  Theorem visits_transparent : forall ident procs ls tk,
+    store_injective procs -> Forall (fun l => In l procs) ls -> tk_ok ident procs tk ->
+    visits ra rr ident tk ls = map (fun l => ra (l_acc l) ident) ls.
+  Proof.
+    intros ident procs ls. induction ls as [|l r IH]; intros tk Hinj Hls Htk; simpl; [reflexivity|].
+    inversion Hls as [|? ? Hl Hr]; subst.
+    destruct (visit_transparent ident procs l tk Hinj Hl Htk) as [Hf Hs].
+    destruct (visit ra rr ident l tk) as [res tk']. simpl in *. subst res.
+    f_equal. now apply IH.
+  Qed.
+
+  Lemma in_combine_map : forall (A B : Type) (g : A -> B) (l : list A) x y,
+    In (x, y) (combine l (map g l)) -> y = g x.
+  Proof.
+    induction l as [|a l IH]; simpl; intros x y H; [contradiction|].
+    destruct H as [H|H]; [now injection H as <- <-|now apply IH].
+  Qed.
+
+  Theorem no_cross_server_resumption : forall ident procs ls l pc,
+    store_injective procs -> Forall (fun l => In l procs) ls ->
+    In (l, SrvAccept pc) (combine ls (visits ra rr ident None ls)) ->
+    match a_verifier (l_acc l) with
+    | NoClientAuth => pc = None
+    | WebPki root allow =>
+        (exists c, ident = Some c /\ pc = Some c /\ client_cert_ok root c = true) \/
+        (allow = true /\ ident = None /\ pc = None)
+    end.
+  Proof.
+    intros ident procs ls l pc Hinj Hls H.
+    rewrite (visits_transparent ident procs ls None Hinj Hls I) in H.
+    apply in_combine_map in H. symmetry in H. exact (H_accept _ _ _ H).
+  Qed.
+
+  (* the stores of the listeners that tonic spawns are pairwise different *)
+  Lemma spawn_from_stores : forall (cfgs : list (@ServerTlsConfig cert ca)) n (l : @listener cert ca),
+    In l (listeners (spawn_from ca_usable n cfgs)) -> (n <= l_store l)%nat.
+  Proof.
+    induction cfgs as [|c r IH]; intros n l H; simpl in H; [contradiction|].
+    apply in_app_or in H. destruct H as [H|H].
+    - destruct (tls_acceptor ca_usable c); simpl in H; try contradiction.
+      destruct H as [<-|[]]. simpl. lia.
+    - apply IH in H. lia.
+  Qed.
+
+  Theorem spawn_servers_store_injective : forall (cfgs : list (@ServerTlsConfig cert ca)),
+    store_injective (listeners (spawn_servers ca_usable cfgs)).
+  Proof.
+    unfold spawn_servers. generalize O. intros n cfgs. revert n.
+    induction cfgs as [|c r IH]; intros n l l' Hl Hl' E; simpl in *; [contradiction|].
+    apply in_app_or in Hl. apply in_app_or in Hl'.
+    destruct Hl as [Hl|Hl], Hl' as [Hl'|Hl'].
+    - destruct (tls_acceptor ca_usable c); simpl in *; try contradiction.
+      destruct Hl as [<-|[]]. destruct Hl' as [<-|[]]. reflexivity.
+    - destruct (tls_acceptor ca_usable c); simpl in *; try contradiction.
+      destruct Hl as [<-|[]]. apply spawn_from_stores in Hl'. simpl in E. lia.
+    - destruct (tls_acceptor ca_usable c); simpl in *; try contradiction.
+      destruct Hl' as [<-|[]]. apply spawn_from_stores in Hl. simpl in E. lia.
+    - now apply (IH (S n)).
+  Qed.
+
+  (* for the listeners tonic spawns (one ServerConfig, hence one store, per tls_acceptor call) *)
+  Theorem resumption_transparent_spawned : forall (cfgs : list (@ServerTlsConfig cert ca)) ident ls,
+    Forall (fun l => In l (listeners (spawn_servers ca_usable cfgs))) ls ->
+    visits ra rr ident None ls = map (fun l => ra (l_acc l) ident) ls.
+  Proof.
+    intros cfgs ident ls H.
+    exact (visits_transparent ident _ ls None (spawn_servers_store_injective cfgs) H I).
+  Qed.
+
+  Theorem no_cross_server_resumption_spawned : forall (cfgs : list (@ServerTlsConfig cert ca)) ident ls l pc,
+    Forall (fun l => In l (listeners (spawn_servers ca_usable cfgs))) ls ->
+    In (l, SrvAccept pc) (combine ls (visits ra rr ident None ls)) ->
+    match a_verifier (l_acc l) with
+    | NoClientAuth => pc = None
+    | WebPki root allow =>
+        (exists c, ident = Some c /\ pc = Some c /\ client_cert_ok root c = true) \/
+        (allow = true /\ ident = None /\ pc = None)
+    end.
+  Proof.
+    intros cfgs ident ls l pc H Hin.
+    exact (no_cross_server_resumption ident _ ls l pc (spawn_servers_store_injective cfgs) H Hin).
+  Qed.
+
   (* ---------------------------------------------------------------- end to end, from the two configurations *)
   Theorem served_over_https_implies_all_o : forall f o_before o_after h
       (c : @ClientTlsConfig cert ca dname) e0 srv,
@@ -601,3 +714,24 @@ Lemma server_handshake_without_request :
     t_srv_handshake ep srv = SrvAccept None /\
     t_outcome ep srv = ConnErr H2NotNegotiated /\ t_reaches ep srv = false.
 Proof. vm_compute. do 2 eexists. repeat split. Qed.
+
+(* the reference resumption obeys the contract *)
+Lemma ref_resume_sound : forall (cert ca : Type), @resume_sound cert ca (@ref_resume cert ca).
+Proof.
+  intros cert ca l sid pc pc' H. unfold ref_resume in H. simpl in H.
+  destruct (Nat.eqb sid (l_store l)) eqn:E; [|discriminate].
+  apply PeanoNat.Nat.eqb_eq in E. injection H as <-. auto.
+Qed.
+
+(* why the stores must be separate: ONE store behind an open and a strict listener lets a client
+   without certificate into the strict one *)
+Lemma shared_store_breaks_client_auth :
+  let open_a := {| a_cert := SrvExample; a_verifier := NoClientAuth; a_alpn := [ALPN_H2] |} in
+  let strict_a := {| a_cert := SrvExample; a_verifier := WebPki CA2 false; a_alpn := [ALPN_H2] |} in
+  visits t_accept ref_resume None None
+    [ {| l_store := 0; l_acc := open_a |}; {| l_store := 0; l_acc := strict_a |} ]
+    = [SrvAccept None; SrvAccept None] /\
+  visits t_accept ref_resume None None
+    [ {| l_store := 0; l_acc := open_a |}; {| l_store := 1; l_acc := strict_a |} ]
+    = [SrvAccept None; SrvReject].
+Proof. split; reflexivity. Qed.
